@@ -17,6 +17,7 @@ import Csverif.Driver.MonC14
 import Csverif.Driver.MonC06
 import Csverif.Driver.MonC20
 import Csverif.Driver.Engine
+import Csverif.Driver.MonC04
 /- Driver: `driver <layer>` reads one operation per line on stdin and prints one canonical
    line per operation.  It executes the very definitions the theorems are about. -/
 open CS
@@ -67,6 +68,7 @@ def main (args : List String) : IO UInt32 := do
   | ["event"] => loopState stdin stdout Driver.MonC06.eventInit Driver.MonC06.stepEvent; stdout.flush; return 0
   | ["monc06"] => loopStateless stdin stdout Driver.MonC06.stepMon; stdout.flush; return 0
   | ["monc20"] => loopStateless stdin stdout Driver.MonC20.step; stdout.flush; return 0
+  | ["monc04"] => loopStateless stdin stdout Driver.MonC04.step; stdout.flush; return 0
   | ["engine"] => loopStateless stdin stdout Driver.Engine.step; stdout.flush; return 0
   | ["reach"] => IO.println (toString Runnable.reachableCodes); return 0
   | _ => IO.eprintln "usage: driver <layer>"; return 2
